@@ -9,7 +9,8 @@
    about an input class where the current code deviates (coincident samples). *)
 From Coq Require Import List ZArith QArith Qcanon Floats Permutation.
 From TK Require Import Mat_Sums Mat_Qc Knn_Spec Tsne_Model Tsne_Vp_Model Tsne_Sym_Model Tsne_Spec
-  Tsne_Proof_Dense Tsne_Proof_Perp Tsne_Proof_K Tsne_Proof_Vp Tsne_Proof_Sym Tsne_Proof_Sym2.
+  Tsne_Proof_Dense Tsne_Proof_Perp Tsne_Proof_K Tsne_Proof_Vp Tsne_Proof_Sym Tsne_Proof_Sym2 Tsne_Proof_SymSpec Tsne_BH_Model Tsne_Proof_BH.
+From TK Require QuadTree_Model QuadTree_Spec QuadTree_SpecExec QuadTree_Proof_Gradient QuadTree_Proof_Final.
 Import ListNotations.
 
 (* ---------------------------------------------------------------- dense algebra (Qc) *)
@@ -188,8 +189,8 @@ Print Assumptions vp_build_inv.
 Example vp_build_inv_nonvacuous : piv_ok piv_first /\ forall d, nth_oracle_ok d (nth_sort d).
 Proof. exact (conj piv_first_ok nth_sort_ok). Qed.
 
-(* row n of the K-NN overload = the K nearest OTHER samples, when no other sample coincides
-   with sample n (after F11: the distance is a metric) *)
+(* consumer before F45 (row = positions 1..K of the search result): the K nearest OTHER samples when
+   no other sample coincides with sample n (after F11: the distance is a metric) *)
 Theorem bh_neighbours_exact : forall d N t q K,
   metric_on (in_range N) d -> in_range N q -> (K + 1 <= N)%nat ->
   vp_inv d t -> Permutation (items t) (samples N) ->
@@ -216,7 +217,7 @@ Theorem bh_neighbours_refuted :
 Proof. exact bh_neighbours_refuted_thm. Qed.
 Print Assumptions bh_neighbours_refuted.
 
-(* current code, coincident samples: the row of a sample may contain the sample itself *)
+(* before F45, coincident samples: the row of a sample may contain the sample itself *)
 Theorem bh_row_coincident_refuted :
   exists (d : dist) (N : nat) (t : vpt) (q : Z) (K : nat) (l : list Z),
     metric_on (in_range N) d /\ vp_inv d t /\ Permutation (items t) (samples N) /\
@@ -224,8 +225,8 @@ Theorem bh_row_coincident_refuted :
 Proof. exact bh_row_coincident_refuted_thm. Qed.
 Print Assumptions bh_row_coincident_refuted.
 
-(* the repair fixes/F44_tsne_bh_coincident_self_neighbour.patch (query dropped by index, else the
-   farthest result): row n is over the K nearest OTHER samples for ALL data, coincident or not *)
+(* CURRENT code (F45, commit f79b9b7: query dropped by index, else the farthest result): row n is
+   over the K nearest OTHER samples for ALL data, coincident or not *)
 Theorem bh_neighbours_exact_fixed : forall d N t q K,
   metric_on (in_range N) d -> in_range N q -> (K + 1 <= N)%nat ->
   vp_inv d t -> Permutation (items t) (samples N) ->
@@ -272,3 +273,47 @@ Theorem sparse_symmetrise_counts : forall V (p : csr V) N, wf_csr N p ->
   forall x, (x < N)%nat -> SC V p N x = SF V p N x.
 Proof. exact SC_eq_SF. Qed.
 Print Assumptions sparse_symmetrise_counts.
+
+(* the decision procedure the check runs on the IMPLEMENTATION's output (extracted sym_spec_b) is
+   sound: acceptance means a well-formed CSR whose entries are those of (P + P^T)/2 up to Qeq;
+   and complete: a result meeting the specification is accepted *)
+Theorem sparse_spec_decision_sound : forall N (p s : csr Q),
+  sym_spec_b N p s = true ->
+  wf_csr N s /\
+  forall r x, (r < N)%nat -> (x < N)%nat -> oq_eq (lookup s r x) (sym_entry Qplus qhalf p r x).
+Proof. exact sym_spec_b_sound. Qed.
+Print Assumptions sparse_spec_decision_sound.
+
+Theorem sparse_spec_decision_complete : forall N (p s : csr Q),
+  sym_spec Qplus qhalf N p s -> sym_spec_b N p s = true.
+Proof. exact sym_spec_b_complete. Qed.
+Print Assumptions sparse_spec_decision_complete.
+
+(* ---------------------------------------------------------------- Barnes-Hut gradient *)
+
+(* computeGradient (model on top of agent c18's quadtree model): for every map without coincident
+   points, every tree built over it and every sparse P there is theta0 > 0 such that for all
+   0 <= theta < theta0 the Barnes-Hut gradient IS  edge forces - exact repulsion / exact sum_Q
+   (composition of C18's forces_eventually_exact and nonedge_loop_theta0) *)
+Theorem bh_gradient_limit : forall fuel data root ok t (rows : list (list (nat * Q))),
+  let N := length rows in
+  QuadTree_Proof_Final.in_root data root (seq 0 N) -> QuadTree_Spec.NoCo data (seq 0 N) ->
+  (N <= length data)%nat ->
+  QuadTree_Model.fill_order true fuel data (seq 0 N) (QuadTree_Model.init root) = QuadTree_Model.Done ok t ->
+  ~ (QuadTree_Proof_Gradient.total_sq data (seq 0 N) (seq 0 N) == 0)%Q ->
+  exists theta0, (0 < theta0)%Q /\
+    forall theta, (0 <= theta)%Q -> (theta < theta0)%Q ->
+      exists g, bh_gradient data rows theta t = Some g /\
+                rows_eq g (closed_rows 0 data (seq 0 N) rows
+                                       (QuadTree_Proof_Gradient.total_sq data (seq 0 N) (seq 0 N))).
+Proof. exact bh_gradient_limit_thm. Qed.
+Print Assumptions bh_gradient_limit.
+
+Example bh_gradient_limit_nonvacuous :
+  QuadTree_Proof_Final.in_root QuadTree_Proof_Final.ex_data2 QuadTree_Proof_Final.ex_root (seq 0 (length ex_rows)) /\
+  QuadTree_Spec.NoCo QuadTree_Proof_Final.ex_data2 (seq 0 (length ex_rows)) /\
+  (length ex_rows <= length QuadTree_Proof_Final.ex_data2)%nat /\
+  (exists t, QuadTree_Model.fill_order true 6 QuadTree_Proof_Final.ex_data2 (seq 0 (length ex_rows))
+               (QuadTree_Model.init QuadTree_Proof_Final.ex_root) = QuadTree_Model.Done true t) /\
+  ~ (QuadTree_Proof_Gradient.total_sq QuadTree_Proof_Final.ex_data2 (seq 0 (length ex_rows)) (seq 0 (length ex_rows)) == 0)%Q.
+Proof. exact bh_gradient_limit_nonvacuous_ex. Qed.
